@@ -463,6 +463,10 @@ ContentOp(op, C) ==
     \* change now; if the removal is undone later by a context exit the object comes back as it then is
     [] op.a = "DetachedSetBounds"  -> IF op.r \in C.rxns \/ op.lo > op.hi THEN FailLoose(C, "skip") ELSE Ok(C)
     \* Reaction.copy / + / - / * return detached objects and leave their operands (and the model) unchanged
+    \* cobra.util.solver.fix_objective_as_constraint(model) applied for good (or inside a context): one more user row;
+    \* it raises on a model without optimum (then nothing changed -- see TraceCobraModel)
+    [] op.a = "FixObjective"       -> IF "fixed_objective" \in C.xrows THEN FailLoose(C, "skip")
+                                      ELSE Res(Canon([C EXCEPT !.xrows = @ \cup {"fixed_objective"}]), "none", TRUE, NoRet)
     [] op.a = "BuildFromString"    -> A_BuildFromString(C, op.r, op.d, op.arrow, -1000, 1000)
     [] op.a = "SetFunctional"      -> A_SetFunctional(C, op.g, op.b)
     [] op.a = "Repair"             -> Ok(C)
@@ -475,7 +479,7 @@ ContentActions == {"AddMetabolites", "RemoveMetabolites", "AddReactions", "Remov
                    "SetBounds", "RxnKnockOut", "SetRule", "GeneKnockOut", "KnockOutModelGenes", "RemoveGenes",
                    "RenameGene", "RenameReaction", "RenameMetabolite", "SetObjective", "SetObjCoef", "SetDirection",
                    "SetMedium", "SwitchSolver", "AddUserCons", "AddUserVar", "RemoveUserCons", "RemoveUserVar",
-                   "AddGroup", "RemoveGroup", "Annotate", "Analyze", "RoundTrip", "GetMedium", "Init", "DetachedSetBounds", "RxnArith", "BuildFromString", "SetFunctional", "Repair"}
+                   "AddGroup", "RemoveGroup", "Annotate", "Analyze", "RoundTrip", "GetMedium", "Init", "DetachedSetBounds", "RxnArith", "BuildFromString", "SetFunctional", "Repair", "FixObjective"}
 \* operations that the documentation does NOT declare reversible inside `with model:`
 NotContextAware == {"AddGroup", "RemoveGroup", "Annotate", "RenameReaction", "RenameMetabolite", "DetachedSetBounds"}
 
